@@ -17,6 +17,9 @@ KNOWN_FILE = os.path.join(ROOT, 'known_findings.json')
 def stable_key(jobname, fn_hint, res, labels):
     """stable identity of an obligation across harmless edits of the body"""
     name = res['name']
+    mc = re.match(r'^(COVER-[\w\-]+)', res['desc'])
+    if mc and '.assertion.' in name:
+        return '%s.post:%s' % (name.split('.assertion.')[0], mc.group(1))
     m = re.match(r'^(.*)\.postcondition\.(\d+)$', name)
     if m and m.group(1) in labels:
         ens = labels[m.group(1)][0]
@@ -77,8 +80,9 @@ def main():
             print('workdir kept:', wd)
 
 def preprocess_labels(cfile, defines, cnames):
-    inc = ['-I', os.path.join(HERE, 'prelude'), '-I', os.path.join(HERE, 'contracts'), '-I', os.path.join(HERE, 'stubs'), '-I', os.path.join(HERE, 'lemmas')]
-    p = subprocess.run(['gcc', '-E', '-CC', '-P', '-x', 'c', '-DNIXC_CBMC'] + ['-D' + d for d in defines] + inc + [cfile],
+    inc = ['-I', os.path.dirname(cfile), '-I', os.path.join(HERE, 'prelude'), '-I', os.path.join(HERE, 'contracts'), '-I', os.path.join(HERE, 'stubs'), '-I', os.path.join(HERE, 'lemmas')]
+    can = ['-DNIX_CANARY_%s=__CPROVER_ensures(0&&"COVER-canary")' % c for c in cnames]
+    p = subprocess.run(['gcc', '-E', '-CC', '-P', '-x', 'c', '-DNIXC_CBMC'] + can + ['-D' + d for d in defines] + inc + [cfile],
                        stdout=subprocess.PIPE, stderr=subprocess.DEVNULL, text=True, errors='replace')
     txt = p.stdout
     return {c: D.clause_labels(txt, c) for c in cnames}
@@ -102,6 +106,9 @@ def run(pid, spec, tier, seed, wd, only, rebase, t_start):
         import random
         random.Random(seed).shuffle(jobs)
     includes = spec.get('contracts', []) + spec.get('stubs', [])
+    with open(os.path.join(wd, 'canary_defaults.h'), 'w') as f:
+        for name in sorted(sigs):
+            f.write('#ifndef NIX_CANARY_%s\n#define NIX_CANARY_%s\n#endif\n' % (name, name))
     built = []
     for js in jobs:
         bodies = [extracted[n].text for n in js.get('bodies', [])]
@@ -163,6 +170,8 @@ def run(pid, spec, tier, seed, wd, only, rebase, t_start):
                 undecided.append((job.jobname, 'expected obligation kind %s missing' % need, ''))
         if os.environ.get('VERIF_VERBOSE'):
             print('job', job.jobname, 'covers hit', covers_hit, 'missed', covers_missed, 'fails', [(k, r_['status']) for k, r_ in fails])
+        if not js.get('lemma'):
+            js = dict(js); js['covers'] = list(js.get('covers') or []) + (['COVER-canary'] if js.get('canary', True) else [])
         if js.get('covers') is not None:
             want = set(js['covers'])
             got = {c.split('.post:')[1] for c in covers_hit}
